@@ -38,16 +38,25 @@ def gen_cases(ctx):
         c["n"] = int(rng.choice([2, 5, 20]))
         c["N"] = int(rng.choice([1, 2, 5, 20], p=[0.25, 0.35, 0.3, 0.1]))
         c["F0"] = str(rng.choice(["I", "random", "sheared", "nearsingular"]))
-        c["L"]["mode"] = str(rng.choice(["const", "timedep", "posdep"]))
+        c["L"]["mode"] = str(rng.choice(["const", "timedep", "posdep", "multirate"]))
+        if c["L"]["mode"] == "multirate":
+            c["L"]["rho"] = float(rng.choice([1e-2, 1e-3]))
         c["L"]["kind"] = str(rng.choice(["general_trace", "general_tracefree", "simple_shear", "rank1", "shear_plus_spin", "axisym_comp"]))
-        c["t0"] = float(rng.choice([0.0, 0.7, -1.3]))
+        c["t0"] = float(rng.choice([0.0, 0.7, -1.3, 1e4, 1e6]))
+        c["regime_via"] = "static"
         yield c
 
 
 def reference(H, t_a, t_b, F):
-    if H.case["L"]["mode"] == "const":
+    mode = H.case["L"]["mode"]
+    if mode == "const":
         return expm(H.Lfun(0.0, None) * (t_b - t_a)) @ F
-    return refmodels.ref_deformation_gradient(F, H.Lfun, H.posfun, t_a, t_b)
+    if mode == "multirate":   # piecewise constant: exact matrix exponentials per piece
+        pts = [t_a] + [x for x in H.breaks if t_a < x < t_b] + [t_b]
+        for u, v in zip(pts[:-1], pts[1:]):
+            F = expm(H.Lfun(0.5 * (u + v), None) * (v - u)) @ F
+        return F
+    return refmodels.ref_deformation_gradient(F, H.Lfun, H.posfun, t_a, t_b, breaks=H.breaks)
 
 
 def check_case(ctx, case):
@@ -64,8 +73,12 @@ def check_case(ctx, case):
     # integral of tr L for the determinant law
     trint = [0.0]
     for a, b in zip(H.ts[:-1], H.ts[1:]):
-        tt = np.linspace(a, b, 201)
-        trint.append(trint[-1] + float(np.trapezoid([np.trace(H.Lfun(t, H.posfun(t))) for t in tt], tt)))
+        pts = [a] + [x for x in H.breaks if a < x < b] + [b]
+        acc = 0.0
+        for u, v in zip(pts[:-1], pts[1:]):
+            tt = np.linspace(u, np.nextafter(v, u) if v in H.breaks else v, 201)
+            acc += float(np.trapezoid([np.trace(H.Lfun(t, H.posfun(t))) for t in tt], tt))
+        trint.append(trint[-1] + acc)
     combos = gen.combos(pydrex)
     variants = []
     for j in range(4):
